@@ -522,12 +522,58 @@ def method(ctx):
     if sh.class_loop is not None and a_names and isinstance(a_names[0].value, ast.BinOp) and isinstance(a_names[0].value.left, ast.List) and a_names[0].value.left.elts:
         selfn = dotted(a_names[0].value.left.elts[0])
         po = [n_ for n_, d_ in sh.list_domain.items() if d_ == {"POSITIONAL_ONLY"}]
-        marked = [a for a in t[0].body if isinstance(a, (ast.Assign, ast.Expr)) and any(p_ in unparse(a) for p_ in po) and selfn in unparse(a)]
+        def _marks(a):
+            # P = [self_name] + P  /  P = P + [self_name]  /  P.append(self_name)  /  P.insert(0, self_name): P keeps its own
+            # elements and gains the instance name, nothing else
+            if isinstance(a, ast.Assign) and len(a.targets) == 1 and dotted(a.targets[0]) in po and isinstance(a.value, ast.BinOp) and isinstance(a.value.op, ast.Add):
+                sides = [a.value.left, a.value.right]
+                lst = [x for x in sides if isinstance(x, ast.List) and len(x.elts) == 1 and dotted(x.elts[0]) == selfn]
+                own = [x for x in sides if dotted(x) == dotted(a.targets[0])]
+                return len(lst) == 1 and len(own) == 1
+            if isinstance(a, ast.Expr) and isinstance(a.value, ast.Call) and isinstance(a.value.func, ast.Attribute) and dotted(a.value.func.value) in po:
+                if a.value.func.attr == "append":
+                    return len(a.value.args) == 1 and dotted(a.value.args[0]) == selfn
+                if a.value.func.attr == "insert":
+                    return len(a.value.args) == 2 and dotted(a.value.args[1]) == selfn
+            return False
+        marked = [a for a in t[0].body if _marks(a)]
         ctx.check(bool(po) and bool(marked), marked[0] if marked else t[0], "the instance parameter is bound by Python already: its name is treated as positional-only (a keyword of that name goes to **kwargs)",
                   "the name of the instance parameter (%s) is not marked positional-only: for `def m(self, **kw)` the valid call obj.m(self=3) overwrites the instance in the canonical "
                   "mapping, so calls on different objects share a cache key" % selfn, key=FI + "::filter_args::instance parameter is positional-only")
     ctx.check(bool(a_names) and isinstance(a_names[0].value, ast.BinOp) and dotted(a_names[0].value.right) == L and isinstance(a_names[0].value.left, ast.List), a_names[0] if a_names else t[0],
               "and its parameter name is prepended to the walk list (both or neither)", "the instance is prepended to args but its name is not prepended to %s" % L)
+
+
+def no_format_on_success(ctx):
+    """A valid call must come through filter_args without its values being formatted: rendering the caller's arguments
+    (repr / %-formatting / str.format of `args`, `kwargs` or values taken from them) belongs to the error paths only.
+    On the success path it is a needless way to fail (a `__repr__` that raises, `"%r" % a_tuple`) - and to be slow."""
+    f = ctx.repo.func(FI, "filter_args")
+    m = ctx.repo.mod(FI)
+    # module-level helpers that only render values: they (transitively) return a string built by formatting
+    renderers = set()
+    for q, fn in m.funcs.items():
+        if "." in q or fn is f:
+            continue
+        rets = [r for r in nodes_of_type(fn, ast.Return) if r.value is not None]
+        fmt = [n for n in ast.walk(fn) if (isinstance(n, ast.BinOp) and isinstance(n.op, ast.Mod) and isinstance(n.left, ast.Constant) and isinstance(n.left.value, str))
+               or (isinstance(n, ast.Call) and isinstance(n.func, ast.Attribute) and n.func.attr in ("format", "join")) or (isinstance(n, ast.Call) and call_name(n) == "repr")]
+        if rets and fmt and all(isinstance(r.value, (ast.Call, ast.BinOp, ast.JoinedStr, ast.Name)) for r in rets) and q.endswith("_str"):
+            renderers.add(q)
+    user = {a.arg for a in f.args.args[2:4]}          # args, kwargs
+    n = 0
+    for c in calls_in(f):
+        nm = call_name(c)
+        renders = nm in renderers and any(names_in(a) & user for a in list(c.args) + [k.value for k in c.keywords])
+        renders = renders or (nm == "repr" and c.args and bool(names_in(c.args[0]) & user))
+        if not renders:
+            continue
+        n += 1
+        on_error = any(isinstance(a, (ast.Raise, ast.ExceptHandler)) for a in ancestors(c))
+        ctx.check(on_error, c, "the caller's values are rendered only while raising",
+                  "`%s` renders the caller's arguments on the success path of filter_args: every valid call now depends on repr/formatting of its values "
+                  "(a value whose repr or %%-formatting raises makes a valid call fail)" % unparse(c, 80))
+    ctx.floor(n, 2, "renderings of the caller's values (error messages)")
 
 
 def ignore(ctx):
@@ -591,6 +637,7 @@ def run(ctx):
     ctx.run("C07.KW", "R-ORDER", kw)
     ctx.run("C07.METHOD", "R-ORDER", method)
     ctx.run("C07.IGNORE", "R-ORDER", ignore)
+    ctx.run("C07.NO-FORMAT", "R-WHO", no_format_on_success)
 
 
 def clauses(ctx):
